@@ -11,7 +11,7 @@ func ProfileFull(avoid map[string]string) *Profile {
 		MaxServices: 2, MaxMethods: 3, Transport: true, BasePaths: true, OddBasePaths: true, DefaultPaths: true, Headers: true,
 		RepeatedQuery: true, QueryOnBody: true, SharedRequest: true,
 		Stratified: true, Features: Features(AllFeatures...), MultiFeature: true, AnnotatedNested: true, AnnotateAnyCard: true, MultiWordChild: true,
-		Rules: true, Examples: true, HostileText: true, Avoid: avoid}
+		Rules: true, Examples: true, HostileText: true, LowerCaseTypes: true, Avoid: avoid}
 }
 
 // ProfilePlain has no JSON-mapping annotations: plain proto3 JSON everywhere.
@@ -28,7 +28,7 @@ func ProfileCodec(avoid map[string]string) *Profile {
 		Optionals: true, Repeateds: true, Enums: true, Timestamps: true, MessageFields: true,
 		MaxServices: 1, MaxMethods: 5, Transport: true, BasePaths: true, QueryOnBody: false,
 		Stratified: true, Features: Features(AllFeatures...), MultiFeature: false, AnnotatedNested: true, AnnotateAnyCard: true, MultiWordChild: true,
-		CompanionPackage: true, Avoid: avoid}
+		CompanionPackage: true, LowerCaseTypes: true, Avoid: avoid}
 }
 
 // ProfileMatrix is the compile matrix: every annotation on every cardinality it is accepted
@@ -100,7 +100,7 @@ func ProfileConcurrency(avoid map[string]string) *Profile {
 // ProfileMock: plain schemas with examples, used with generate_mock=true.
 func ProfileMock(avoid map[string]string) *Profile {
 	return &Profile{Name: "mock", MaxDataMessages: 2, MaxFields: 4, Maps: true, Optionals: true, Repeateds: true, Enums: true, MessageFields: true, Timestamps: true,
-		MaxServices: 2, MaxMethods: 2, Transport: true, BasePaths: true, Headers: true, Examples: true, NoClient: true, MockShape: true, CompanionPackage: true, Avoid: avoid}
+		MaxServices: 2, MaxMethods: 2, Transport: true, BasePaths: true, Headers: true, Examples: true, NoClient: true, MockShape: true, CompanionPackage: true, LowerCaseTypes: true, Avoid: avoid}
 }
 
 // ProfileOpenAPI: everything that shapes OpenAPI documents.
